@@ -56,3 +56,60 @@ VARIANTS["C18"] = [
     R("inline-es", BP, "    es: list = [e for e in G.edges() if random.random() > phi]\n    G.remove_edges_from(es)",
       "    G.remove_edges_from([e for e in G.edges() if random.random() > phi])"),
 ]
+
+# ------------------------------------------------------------------------------------------- C20
+DS = "gcmpy/tools/draw_set.py"
+MC = "gcmpy/tools/markov_chain_monte_carlo_rewiring.py"
+VARIANTS["C20"] = [
+    M("guard-off-by-one", DS, "if position != len(self._edges):", "if position != len(self._edges) - 1:", "C20.4"),
+    M("guard-removed", DS, "        if position != len(self._edges):\n            self._edges[position] = last_item\n            self._edge_hashmap[last_item] = position",
+      "        self._edges[position] = last_item\n        self._edge_hashmap[last_item] = position", "C20.4"),
+    M("map-update-dropped", DS, "            self._edges[position] = last_item\n            self._edge_hashmap[last_item] = position",
+      "            self._edges[position] = last_item", "C20.4"),
+    M("add-no-membership", DS, "        if e in self._edge_hashmap:\n            return\n", "", "C20.2"),
+    M("add-index-off", DS, "self._edge_hashmap[e] = len(self._edges) - 1", "self._edge_hashmap[e] = len(self._edges)", "C20.2"),
+    M("pop-list-before-lookup", DS, "        position = self._edge_hashmap.pop(e)\n        last_item = self._edges.pop()",
+      "        last_item = self._edges.pop()\n        position = self._edge_hashmap.pop(e)", "C20.3"),
+    M("swallow-keyerror", DS, "        position = self._edge_hashmap.pop(e)\n",
+      "        try:\n            position = self._edge_hashmap.pop(e)\n        except KeyError:\n            return\n", "C20.3"),
+    M("pop-default", DS, "self._edge_hashmap.pop(e)", "self._edge_hashmap.pop(e, 0)", "C20.3"),
+    M("external-write", MC, "        EdgeSet = DrawSet()\n", "        EdgeSet = DrawSet()\n        EdgeSet._edges.append((0, 0))\n", "C20.1"),
+    M("class-level-list", DS, "class DrawSet(object):\n", "class DrawSet(object):\n    _edges: list = []\n", "C20.1"),
+    M("draw-first", DS, "return random.choice(self._edges)", "return self._edges[0]", "C20.5"),
+    M("contains-negated", DS, "return e in self._edge_hashmap", "return e not in self._edge_hashmap", "C20.5"),
+    M("len-minus-one", DS, "return len(self._edges)\n", "return len(self._edges) - 1\n", "C20.5"),
+    M("swap-wrong-key", DS, "self._edge_hashmap[last_item] = position", "self._edge_hashmap[e] = position", "C20.4"),
+    M("add-wrong-key", DS, "self._edge_hashmap[e] = len(self._edges) - 1", "self._edge_hashmap[len(self._edges) - 1] = e", "C20.2"),
+    R("contains-on-list", DS, "return e in self._edge_hashmap\n", "return e in self._edges\n"),
+    R("guard-less-than", DS, "if position != len(self._edges):", "if position < len(self._edges):"),
+    R("add-if-not-in", DS, "        if e in self._edge_hashmap:\n            return\n        self._edges.append(e)\n        self._edge_hashmap[e] = len(self._edges) - 1",
+      "        if e not in self._edge_hashmap:\n            self._edge_hashmap[e] = len(self._edges)\n            self._edges.append(e)"),
+    R("guard-before-pop", DS, "        last_item = self._edges.pop()\n        if position != len(self._edges):",
+      "        is_last = position == len(self._edges) - 1\n        last_item = self._edges.pop()\n        if not is_last:"),
+    R("len-of-map", DS, "return len(self._edges)\n", "return len(self._edge_hashmap)\n"),
+    U("local-aliases", DS, "        position = self._edge_hashmap.pop(e)\n        last_item = self._edges.pop()\n        if position != len(self._edges):\n            self._edges[position] = last_item",
+      "        edges = self._edges\n        position = self._edge_hashmap.pop(e)\n        last_item = edges.pop()\n        if position != len(edges):\n            edges[position] = last_item"),
+]
+
+# ------------------------------------------------------------------------------------------- C03
+GF = "gcmpy/gcm_algorithm/gcm_algorithm_fast.py"
+GC = "gcmpy/gcm_algorithm/gcm_algorithm_custom_motifs.py"
+GA = "gcmpy/gcm_algorithm/gcm_algorithm.py"
+SH = "        for k_list in stubs:\n            random.shuffle(k_list)\n"
+VARIANTS["C03"] = [
+    M("fast-shuffle-removed", GF, SH, "", "C03.1"),
+    M("custom-shuffle-removed", GC, SH, "", "C03.1"),
+    M("fast-only-first", GF, "for k_list in stubs:\n            random.shuffle", "for k_list in stubs[:1]:\n            random.shuffle", "C03.1"),
+    M("custom-shuffle-copy", GC, "random.shuffle(k_list)", "random.shuffle(list(k_list))", "C03.2"),
+    M("fast-shuffle-slice-copy", GF, "random.shuffle(k_list)", "random.shuffle(k_list[:])", "C03.2"),
+    M("fast-sort-after", GF, SH, SH + "        for k_list in stubs:\n            k_list.sort()\n", "C03.3"),
+    M("fast-seed", GF, "        stubs = [", "        random.seed(0)\n        stubs = [", "C03.3"),
+    M("fast-conditional-shuffle", GF, "            random.shuffle(k_list)\n", "            if len(k_list) > 2:\n                random.shuffle(k_list)\n", "C03.1"),
+    M("fast-break-after-first", GF, "            random.shuffle(k_list)\n", "            random.shuffle(k_list)\n            break\n", "C03.1"),
+    M("custom-shuffle-after-partition", GC, SH + "\n        # create list for edges and add joint degree sequence\n        EdgeList = LightWeightEdgeList()\n        EdgeList.joint_degrees = jds\n\n        # split the stub lists into partitions of equal\n        # size to the number of that topology required to\n        # construct the motif\n        partitions: list[list] = []\n        for i, k_list in enumerate(stubs):\n            partitions.append(self.partition(k_list, self._motif_sizes[i]))\n",
+      "        EdgeList = LightWeightEdgeList()\n        EdgeList.joint_degrees = jds\n        partitions: list[list] = []\n        for i, k_list in enumerate(stubs):\n            partitions.append(self.partition(k_list, self._motif_sizes[i]))\n" + SH, "C03.1"),
+    M("fast-shuffle-first-list-always", GF, "for k_list in stubs:\n            random.shuffle(k_list)", "for k_list in stubs:\n            random.shuffle(stubs[0])", "C03.2"),
+    M("seed-in-base-init", GA, "        self._motif_sizes: list = []  #", "        import random\n        random.seed(1)\n        self._motif_sizes: list = []  #", "C03.3"),
+    R("fast-index-loop", GF, "        for k_list in stubs:\n            random.shuffle(k_list)", "        for i in range(len(stubs)):\n            random.shuffle(stubs[i])"),
+    R("fast-renamed-var", GF, "        for k_list in stubs:\n            random.shuffle(k_list)", "        for stub_list in stubs:\n            random.shuffle(stub_list)"),
+]
